@@ -42,7 +42,7 @@ let handle line =
   | [_; "ts"; set; v; id; sk; msg; rnd; _] ->
     let (p, hs) = inst set in
     sigout (tink_sign p hs (v = "T") (n_of_dec id) (unhex sk) (unhex msg) (unhex rnd))
-  | [_; "tv"; set; v; id; pk; msg; sg; _] ->
+  | [_; ("tv" | "tk"); set; v; id; pk; msg; sg; _] ->
     let (p, hs) = inst set in
     verout (tink_verify p hs (v = "T") (n_of_dec id) (unhex pk) (unhex msg) (unhex sg))
   | [_; "gk"; set; _; id; sks; skp; pks; mode; _] ->
